@@ -52,3 +52,21 @@ pub fn set_name(name: &str) {
 pub fn points() -> u64 {
     with_state(|st, _| st.points)
 }
+
+/// How many condvar waits the calling thread has entered so far.
+pub fn my_blocking_ops() -> u64 {
+    with_state(|st, me| st.threads[me].blocking_ops)
+}
+
+/// Names and pending operations of all unfinished threads except the caller.
+pub fn blocked_threads() -> Vec<(usize, String, String)> {
+    with_state(|st, me| {
+        let mut v = Vec::new();
+        for (t, th) in st.threads.iter().enumerate() {
+            if !th.finished && t != me {
+                v.push((t, th.name.clone(), format!("{:?}", th.pending)));
+            }
+        }
+        v
+    })
+}
